@@ -94,7 +94,7 @@ func RandomHistories(w *WorldJSON, seed int64, n, depth int, routers []string, f
 			if (focus == "tokenuse" || focus == "exchange") && i%25 == 3 {
 				g.deadTokenMatrix(emit)
 			}
-			if (focus == "refresh" || focus == "clientauth") && i%25 == 4 {
+			if (focus == "refresh" || focus == "clientauth") && (i%25 == 4 || (!cfg.Refresh && i%3 == 0)) {
 				g.refreshWithoutGrant(emit)
 			}
 			if focus == "refresh" && i%50 == 7 {
